@@ -492,7 +492,7 @@ pub fn run_batch<E: Engine>(e: &E, opts: &BatchOpts) -> i32 {
     let hang_secs: u64 = std::env::var("TW2SIM_HANG_SECS")
         .ok()
         .and_then(|s| s.parse().ok())
-        .unwrap_or(30);
+        .unwrap_or(120);
 
     let aggs: Vec<WorkerAgg> = std::thread::scope(|scope| {
         let mut handles = Vec::new();
